@@ -108,6 +108,42 @@ pub fn run(s: &mut Session, ctx: &Ctx) {
         ops::from_space(s, kind, x, y, z, a, true);
     }
 
+    // ---- inverse, directed at the rounding ties: XYZ coordinates whose encoded sRGB channel lies a hair below
+    // or above k + 1/2 (relative distance 1e-8 ... 1e-6) - where a constant that is off in the sixth digit
+    // changes the 8-bit result. The coordinates are obtained by decoding the wanted channel values with the
+    // published curve and solving the implementation's own 3x3 matrix for X, Y, Z.
+    {
+        let m = [[3.2406, -1.5372, -0.4986], [-0.9689, 1.8758, 0.0415], [0.0557, -0.2040, 1.0570]];
+        let det = |a: [[f64; 3]; 3]| -> f64 {
+            a[0][0] * (a[1][1] * a[2][2] - a[1][2] * a[2][1]) - a[0][1] * (a[1][0] * a[2][2] - a[1][2] * a[2][0]) + a[0][2] * (a[1][0] * a[2][1] - a[1][1] * a[2][0])
+        };
+        let solve = |t: [f64; 3]| -> [f64; 3] {
+            let d = det(m);
+            let mut out = [0.0; 3];
+            for c in 0..3 {
+                let mut a = m;
+                for r in 0..3 {
+                    a[r][c] = t[r];
+                }
+                out[c] = det(a) / d;
+            }
+            out
+        };
+        let decode = |e: f64| -> f64 { if e <= 0.04045 { e / 12.92 } else { ((e + 0.055) / 1.055).powf(2.4) } };
+        let ks: Vec<u32> = if ctx.thorough { (0..255).collect() } else { (0..255).filter(|k| *k < 24 || k % 5 == 0).collect() };
+        for k in ks {
+            for ch in 0..3 {
+                for delta in [-1e-6, -1e-7, -1e-8, 1e-8, 1e-7, 1e-6] {
+                    let mut e = [rng.unit(), rng.unit(), rng.unit()];
+                    e[ch] = (k as f64 + 0.5) * (1.0 + delta) / 255.0;
+                    let xyz = solve([decode(e[0]), decode(e[1]), decode(e[2])]);
+                    ops::from_space(s, "xyz", xyz[0], xyz[1], xyz[2], 1.0, true);
+                    s.tag("inverse:directed-at-a-rounding-tie");
+                }
+            }
+        }
+    }
+
     // ---- HSL far outside its ranges, against the statement itself: the hexcone inverse evaluated on the
     // coordinates as given, then each sRGB channel clamped to [0,1] and rounded (no model involved) ----
     let n_hsl = if ctx.thorough { 400_000 } else { 20_000 };
